@@ -56,12 +56,30 @@ def runTls (tok : List String) : String × String :=
         let role := match a.role with | some r => roleTok r | none => "-"
         s!"hs=ok ver={verStr a.version} reply=00070000000501030203d6 role={role} calls=1"
     | _ :: "cli" :: mn :: mode :: vers :: srv :: name :: rest =>
-      let m : Mode := if mode = "ca" then .authority 1 else .selfSigned (idOf (rest.headD srv))
-      let nm : Option String := if mode = "ca" ∧ name ≠ "-" then some name else none
+      -- `cad` / `ssd`: the same through the deprecated constructor `TlsClientConfig::new`
+      let ca := mode = "ca" ∨ mode = "cad"
+      let m : Mode := if ca then .authority 1 else .selfSigned (idOf (rest.headD srv))
+      let nm : Option String := if ca ∧ name ≠ "-" then some name else none
       match admitClient (minOf mn) m nm (versOf vers) (certOf srv) with
       | none => "hs=fail ver=- req=-"
       | some v => s!"hs=ok ver={verStr v} req=timeout"
     | _ => "bad-case"
+  (out, out)
+
+/-- `role <r<hex>/r<hex>…|-> <DER>`: role extraction from a certificate whose ModbusRole extensions
+    carry the listed values (the DER is built from that list by tools/der.py) -/
+def runRole (tok : List String) : String × String :=
+  let roles : List String :=
+    match tok with
+    | _ :: "-" :: _ => []
+    | _ :: rs :: _ => (rs.splitOn "/").map fun r =>
+        match ofHex (String.ofList r.toList.tail) with
+        | some bs => String.fromUTF8! (ByteArray.mk (bs.map (·.toUInt8)).toArray)
+        | none => ""
+    | _ => []
+  let out := match extractRole ⟨none, [], true, roles, 0⟩ with
+    | some r => "role=" ++ roleTok r
+    | none => "err"
   (out, out)
 
 end Rodbus.Driver
